@@ -120,6 +120,9 @@ func c20ChainMonitor(c *Ctx, op, out string) {
 		return
 	}
 	f := strings.Fields(op)
+	if f[0] == "cni.gen" {
+		f = f[2:] // <old> <list> come before the fields of cni.chain
+	}
 	ebpf := f[1] == "1"
 	in, _, _ := tokParse(f[7:])
 	inArr, _ := in.([]any)
@@ -194,7 +197,7 @@ func c20Exec(c *Ctx, ops []string) []string {
 		switch {
 		case strings.HasPrefix(op, "cfg.merge "):
 			outs[i] = protect(func() string { return c20Merge(c, op) })
-		case strings.HasPrefix(op, "cni.chain "):
+		case strings.HasPrefix(op, "cni.chain "), strings.HasPrefix(op, "cni.gen "):
 			chainOps = append(chainOps, op)
 			chainIdx = append(chainIdx, i)
 		default:
@@ -321,7 +324,7 @@ func c15ChainRun(c *Ctx, n int) {
 		if r.Chance(30) {
 			plugins = append(plugins, map[string]any{"type": Pick(r, []any{"portmap", "tuning", 3, nil})})
 		}
-		ops = append(ops, fmt.Sprintf("cni.chain %s %s %s %s %s %s %s", b01(r.Chance(75)), b01(r.Chance(50)), b01(r.Chance(50)), b01(r.Chance(40)),
+		ops = append(ops, chainOrGen(r, len(plugins))+fmt.Sprintf(" %s %s %s %s %s %s %s", b01(r.Chance(75)), b01(r.Chance(50)), b01(r.Chance(50)), b01(r.Chance(40)),
 			Pick(r, []string{"-", "-", "t", "f"}), b01(r.Chance(25)), tokShow(plugins)))
 	}
 	outs := c20Exec(c, ops)
@@ -329,6 +332,20 @@ func c15ChainRun(c *Ctx, n int) {
 		c.One(op, outs[i], strings.HasPrefix(outs[i], "[ {"))
 		c.Count("cni-config")
 	}
+}
+
+// chainOrGen: one list in four goes through the whole first step of `terway-cli cni` (processInput: the files under /etc/eni,
+// the kernel probes, the file at --output, where an earlier run may have left a shorter or a longer list) instead of
+// mergeConfigList alone; a single plugin also comes as 10-terway.conf without a conflist.
+func chainOrGen(r *Rng, nPlugins int) string {
+	if !r.Chance(25) {
+		return "cni.chain"
+	}
+	list := "1"
+	if nPlugins == 1 && r.Chance(40) {
+		list = "0"
+	}
+	return "cni.gen " + Pick(r, []string{"none", "short", "long", "long"}) + " " + list
 }
 
 func c20Run(c *Ctx) {
@@ -410,13 +427,16 @@ func c20Run(c *Ctx) {
 		if plugins == nil {
 			plugins = []any{}
 		}
-		op := fmt.Sprintf("cni.chain %s %s %s %s %s %s %s", b01(r.Chance(75)), b01(r.Chance(50)), b01(r.Chance(50)), b01(r.Chance(40)),
+		op := chainOrGen(r, len(plugins)) + fmt.Sprintf(" %s %s %s %s %s %s %s", b01(r.Chance(75)), b01(r.Chance(50)), b01(r.Chance(50)), b01(r.Chance(40)),
 			Pick(r, []string{"-", "-", "t", "f"}), b01(r.Chance(25)), tokShow(plugins))
 		ops = append(ops, op)
 	}
 	outs := c20Exec(c, ops)
 	for i, op := range ops {
 		c.One(op, outs[i], strings.HasPrefix(outs[i], "[ {"))
+		if strings.HasPrefix(op, "cni.gen ") {
+			c.Count("chain-through-files-old-" + strings.Fields(op)[1])
+		}
 		switch {
 		case strings.HasPrefix(outs[i], "err"):
 			c.Count("chain-" + outs[i])
